@@ -87,7 +87,8 @@ func mcWorlds(family string) []Scenario {
 			add(c, []sut.SeedUser{{Pid: "u1", Pw: 1, Conf: true, Otps: 2}, {Pid: "u2", Pw: 2, Conf: true, Otps: 4}})
 		}
 	case "twofa":
-		for _, m := range [][]string{{"auth", "totp", "sms", "logout"}, {"auth", "sms", "totp", "lock", "logout"}, {"auth", "otp", "recover", "totp", "sms", "logout"}} {
+		for _, m := range [][]string{{"auth", "totp", "sms", "logout"}, {"auth", "sms", "totp", "lock", "logout"}, {"auth", "otp", "recover", "totp", "sms", "logout"},
+			{"auth", "remember", "totp", "sms", "logout"}} {
 			for _, ot := range []bool{false, true} {
 				c := c0(m...)
 				c.TotpOneTime, c.RecoverLogin, c.LockAfter = ot, true, 1
@@ -111,6 +112,10 @@ func mcWorlds(family string) []Scenario {
 			add(c0("auth", "totp", "sms", "recovery", "logout"), sd)
 			ws[len(ws)-1].Steps = pre
 		}
+		// an account that enrolled TOTP after a remembered login, now back on its cookie alone (half-authenticated)
+		add(c0("auth", "remember", "totp", "sms", "recovery", "logout"), seed2)
+		ws[len(ws)-1].Steps = []sut.Event{{Act: "LoginPost", B: "b1", Pid: "u1", Pw: 1, Rm: true}, {Act: "TotpSetup", B: "b1"},
+			{Act: "TotpConfirm", B: "b1", Tok: 1, Code: 1}, {Act: "DropSession", B: "b1"}}
 		// a plain account, logged in
 		for _, ea := range []bool{false, true} {
 			c := c0("auth", "totp", "sms", "recovery", "logout")
@@ -176,7 +181,7 @@ func mcEvents(family string, c sut.Config, o sut.Obs, iss map[string]int) []sut.
 			ev(sut.Event{Act: "Probe", B: b, K: "alt1"})
 			ev(sut.Event{Act: "Probe", B: b, K: "bare"})
 			ev(sut.Event{Act: "Get", B: b, K: "login"})
-			for _, m := range []string{c.LogoutMethod, "GET"} {
+			for _, m := range []string{c.LogoutMethod, "GET", "HEAD"} {
 				ev(sut.Event{Act: "Logout", B: b, Method: m})
 			}
 		}
@@ -323,10 +328,13 @@ func mcEvents(family string, c sut.Config, o sut.Obs, iss map[string]int) []sut.
 		ev(sut.Event{Act: "LoginPost", B: "b1", Pid: "u2", Pw: 2})
 		ticks(3)
 	case "twofa":
+		if c.Has("remember") {
+			ev(sut.Event{Act: "DropSession", B: "b1"})
+		}
 		for _, b := range b12 {
 			for _, p := range []string{"u1", "u2"} {
 				for _, w := range []int{1, 2} {
-					ev(sut.Event{Act: "LoginPost", B: b, Pid: p, Pw: w})
+					ev(sut.Event{Act: "LoginPost", B: b, Pid: p, Pw: w, Rm: c.Has("remember")})
 				}
 			}
 			for _, k := range []int{1, 3, -1} {
